@@ -68,7 +68,18 @@ Judge_whist(c) ==
                                 [k \in 1..Len(c.events) |-> k])
            first == ParseFile(c.events[1].stream, c.hs, c.inflate)
        IN << IF fin.bad = "" THEN Cl("C07.history", "ok")
-             ELSE IF SubSeq(fin.bad, 1, 6) = "unspec" THEN Cl("C07.history", "unspec")
+             ELSE IF SubSeq(fin.bad, 1, 6) = "unspec" THEN
+                  \* a non-conforming record was accepted (no validator): what it contributes is not pinned, but after the final flush
+                  \* the stream is still a file that reads back, with one record per accepted write / copied record
+                  LET n == Len(c.events)
+                      lastpf == ParseFile(c.events[n].stream, c.hs, c.inflate)
+                      nsub == FoldLeft(LAMBDA a, k : LET e == c.events[k] IN
+                                         a + (IF e.op = "write" /\ ~e.raised THEN 1
+                                              ELSE IF e.op = "wblock" /\ ~e.raised THEN Len(donors[e.donor][e.bi]) ELSE 0),
+                                       0, [k \in 1..n |-> k])
+                  IN IF c.events[n].op # "flush" \/ \E k \in 1..n : c.events[k].raised /\ c.events[k].op # "write"
+                     THEN Cl("C07.history", "unspec")
+                     ELSE Tri("C07.accepted_then_readable", lastpf.ok /\ Len(lastpf.records) = nsub)
              ELSE Cl(fin.bad, "fail"),
              \* the header is the one asked for at creation
              When("C07.created", first.ok,
